@@ -21,12 +21,34 @@ def id_token(claims, key=None, header=None):
     return t.decode() if isinstance(t, bytes) else t
 
 
-def parse(fw, token, nonce, leeway=None):
+def parse(fw, token, nonce, leeway=None, jwks=None, issuer=None, discovery=False):
     """{"accepted": bool, "error": code} — what the integration's parse_id_token says about this token response"""
+    if discovery and fw != "starlette":
+        # the provider is registered by its discovery document only (server_metadata_url); the document is served by a patched transport
+        from unittest import mock
+        import json, requests
+
+        def send(session_self, req, **kw):
+            r = requests.Response(); r.request = req; r.status_code = 200
+            base = issuer or ISSUER
+            r._content = json.dumps({"issuer": base, "authorization_endpoint": "https://as.example/authorize", "token_endpoint": "https://as.example/token",
+                                     "id_token_signing_alg_values_supported": ["HS256"]}).encode()
+            r.headers["Content-Type"] = "application/json"
+            return r
+        with mock.patch("requests.sessions.Session.send", send):
+            return _parse(fw, token, nonce, leeway, jwks, issuer, True)
+    return _parse(fw, token, nonce, leeway, jwks, issuer, False)
+
+
+def _parse(fw, token, nonce, leeway, jwks, issuer, discovery):
     from authlib.jose.errors import JoseError
     k = keys()[0]
-    reg = dict(client_id="cid", client_secret="sec", jwks={"keys": [dict(k.as_dict(is_private=True))]}, issuer=ISSUER, id_token_signing_alg_values_supported=["HS256"],
+    reg = dict(client_id="cid", client_secret="sec", jwks=jwks or {"keys": [dict(k.as_dict(is_private=True))]}, issuer=issuer or ISSUER, id_token_signing_alg_values_supported=["HS256"],
                access_token_url="https://as.example/token", authorize_url="https://as.example/authorize")
+    if discovery:
+        for m in ("issuer", "id_token_signing_alg_values_supported", "access_token_url", "authorize_url"):
+            reg.pop(m)
+        reg["server_metadata_url"] = "https://as.example/.well-known/openid-configuration"
     kw = {} if leeway is None else {"leeway": leeway}
     try:
         if fw == "flask":
